@@ -158,6 +158,10 @@ pub fn check_sinks(prop: &str, sc: &Scenario, rr: &RunResult, reference: &RefRes
 // ------------------------------------------------------------------------------------------
 
 pub fn c01(sc: &Scenario, rr: &RunResult) -> Vec<Violation> {
+    if rr.outcome.verdict != Verdict::Completed {
+        // a job that does not terminate delivers nothing: that is C04's verdict, not C01's
+        return vec![];
+    }
     let reference = Interp::run(sc);
     check_sinks("C01", sc, rr, &reference, false)
 }
@@ -253,9 +257,25 @@ pub fn c04(sc: &Scenario, rr: &RunResult) -> Vec<Violation> {
     let mut out = vec![];
     match rr.outcome.verdict {
         Verdict::Deadlock => {
+            // is the head block of an `iterate` loop blocked while sending into its own body?
+            let mut iter_heads: BTreeSet<u64> = BTreeSet::new();
+            for m in rr.meta.iter().filter(|m| m.pos == "loophead") {
+                if loop_at(&sc.steps, &m.path).map(|l| l.iterate).unwrap_or(false) {
+                    for ((p, c), _) in rr.rec.probes.iter() {
+                        if *p == m.id {
+                            iter_heads.insert(c.0);
+                        }
+                    }
+                }
+            }
+            let head_blocked = rr.outcome.threads.iter().any(|t| {
+                !t.finished
+                    && t.blocked_on.as_ref().map(|b| b.0 == "chan.send").unwrap_or(false)
+                    && t.name.strip_prefix("block-").and_then(|x| x.parse::<u64>().ok()).map(|b| iter_heads.contains(&b)).unwrap_or(false)
+            });
             out.push(viol(
                 "C04",
-                &format!("deadlock/{}", deadlock_class(rr)),
+                &format!("{}/{}", if head_blocked { "deadlock-iterate-backpressure" } else { "deadlock" }, deadlock_class(rr)),
                 format!("no runnable thread and no pending timer:\n{}", rr.outcome.deadlock_report()),
             ));
             return out;
@@ -307,6 +327,14 @@ pub fn c04(sc: &Scenario, rr: &RunResult) -> Vec<Violation> {
         sid += 1;
     });
     out
+}
+
+/// the loop spec at a (top-level) step path
+pub fn loop_at<'a>(steps: &'a [Step], path: &[usize]) -> Option<&'a LoopSpec> {
+    match steps.get(*path.first()?) {
+        Some(Step::Loop(_, l)) => Some(l),
+        _ => None,
+    }
 }
 
 pub fn first_line(s: &str) -> String {
